@@ -27,8 +27,18 @@ for tc in ET.parse(sys.argv[1]).getroot().iter('testcase'):
         ok.add(tc.get('classname') + '::' + tc.get('name'))
 missing = sorted(base - ok)
 print('baseline_pass=%d/%d missing=%s' % (len(base & ok), len(base), missing[:5]))
+open(sys.argv[1] + '.missing', 'w').write('\n'.join(missing))
 PY
 )
+  if [ -s $WT/junit.xml.missing ]; then   # load-induced flakiness (hypothesis deadlines): retry those alone
+    RETRY=""
+    for t in $(cat $WT/junit.xml.missing); do
+      mod=${t%%::*}; name=${t#*::}
+      case "$mod" in *Test) cls=${mod##*.}; mod=${mod%.*}; node="$(echo $mod | tr . /).py::$cls::$name" ;; *) node="$(echo $mod | tr . /).py::$name" ;; esac
+      PYTHONPATH=$WT /venv/bin/python -m pytest -q -p no:cacheprovider --timeout=900 "$node" > $WT/retry.txt 2>&1 && RETRY="$RETRY $name:pass-alone" || RETRY="$RETRY $name:FAILS-alone"
+    done
+    TESTS="$TESTS retry[$RETRY ]"
+  fi
 fi
 cd /verif
 TAUREX_SRC=$WT ./check $ID quick > $OUT/check_patched.txt 2>&1; CK=$?
